@@ -10,8 +10,10 @@ package main
 
 import (
 	"fmt"
+	"os"
 	"reflect"
 	"strings"
+	"time"
 
 	"github.com/gopcua/opcua/ua"
 
@@ -67,14 +69,20 @@ func implDecode(b []byte, t reflect.Type) (out reflect.Value, n int, res string)
 		b = []byte{}
 	}
 	out = reflect.New(t.Elem())
-	res, msg := h.CatchMsg(func() string {
-		var err error
-		n, err = ua.Decode(b, out.Interface())
-		if err != nil {
-			return "fail err"
-		}
-		return fmt.Sprintf("ok %d %s", n, codecx.Print(out.Interface()))
-	})
+	var msg string
+	// the bytes come from the (possibly changed) encoder: a decoder that hangs or eats memory on them must not take the run down
+	if g := codecx.Guard(20*time.Second, 6<<30, func() {
+		res, msg = h.CatchMsg(func() string {
+			var err error
+			n, err = ua.Decode(b, out.Interface())
+			if err != nil {
+				return "fail err"
+			}
+			return fmt.Sprintf("ok %d %s", n, codecx.Print(out.Interface()))
+		})
+	}); g != "" {
+		return out, 0, "fail " + g
+	}
 	if res == "panic" {
 		res = "fail " + panicKind(msg)
 	}
@@ -107,7 +115,13 @@ func (e *env) roundTrip(stream string, t reflect.Type, v reflect.Value, sig stri
 	e.r.Sample(fmt.Sprintf("%s -> %s -> %s", trunc(canon, 150), trunc(h.Hex(b), 60), trunc(decRes, 100)))
 	// ---- the property's own oracle, on the implementation alone
 	if !strings.HasPrefix(decRes, "ok") {
-		e.fail(canon, sig, fmt.Sprintf("Encode gave %s but Decode: %s", h.Hex(b), decRes))
+		e.fail(canon, sig, fmt.Sprintf("Encode gave %s but Decode: %s", trunc(h.Hex(b), 400), decRes))
+		if decRes == "fail hang" || decRes == "fail memory" {
+			// the decoder goroutine is still running: report what we have and stop
+			e.r.Notes = append(e.r.Notes, "run stopped early: Decode of an encoder output did not return ("+decRes+")")
+			e.r.Write(e.o.Out)
+			os.Exit(0)
+		}
 		return
 	}
 	if n != len(b) {
@@ -175,6 +189,136 @@ type generic2 struct {
 	Z    []struct{}
 }
 
+// ---- finding signatures: narrow, decidable predicates on the failing case (a top-level Variant or ExtensionObject)
+
+func countLeaves(v reflect.Value) int {
+	if v.Kind() == reflect.Slice && v.Type() != reflect.TypeOf([]byte{}) {
+		n := 0
+		for i := 0; i < v.Len(); i++ {
+			n += countLeaves(v.Index(i))
+		}
+		return n
+	}
+	return 1
+}
+
+func classify(x interface{}) string {
+	switch v := x.(type) {
+	case *ua.Variant:
+		if v == nil {
+			return ""
+		}
+		mask, alen, _, dims, value := ua.VerifVariantFields(v)
+		isArr := mask&ua.VariantArrayValues != 0
+		if len(dims) >= 2 {
+			for _, d := range dims {
+				if d == 0 {
+					return "C01.variant-zero-dim"
+				}
+			}
+		}
+		if value == nil {
+			return ""
+		}
+		rv := reflect.ValueOf(value)
+		base, depth := codecx.VTag(rv.Type())
+		if isArr && depth >= 2 && rv.Len() == 0 && !rv.IsNil() && int(mask&0x3f) == int(ua.TypeIDVariant) && base != int(ua.TypeIDVariant) {
+			return "C01.variant-empty-multidim"
+		}
+		if isArr && int(mask&0x3f) == int(ua.TypeIDByteString) && alen > 0 {
+			return "C01.variant-bytestring-array"
+		}
+		if isArr && len(dims) >= 2 && int(alen) != countLeaves(rv) {
+			return "C01.variant-ragged"
+		}
+	case *ua.ExtensionObject:
+		if v == nil || v.Value == nil || v.EncodingMask == ua.ExtensionObjectEmpty || v.EncodingMask == ua.ExtensionObjectXML {
+			return ""
+		}
+		if codecx.CanEncodeEmpty(reflect.TypeOf(v.Value)) {
+			return "C01.extobj-empty-body"
+		}
+	}
+	return ""
+}
+
+// newVariant builds a Variant with the real constructor and compares fields and outcome with the model's newVariant.
+func (e *env) newVariant(x interface{}) *ua.Variant {
+	v, err := ua.NewVariant(x)
+	base, depth, text := codecx.PrintVariantInput(x)
+	impl := "fail err"
+	if err == nil {
+		impl = "ok " + codecx.Print(v)
+	}
+	e.r.Compare(e.d, fmt.Sprintf("newvar %d %d %s", base, depth, text), impl)
+	if err != nil {
+		return nil
+	}
+	return v
+}
+
+// findings replays the witnesses of the recorded findings and generates more cases of the same shapes.
+func (e *env) findings() {
+	tv := reflect.TypeOf((*ua.Variant)(nil))
+	run := func(x interface{}) {
+		v := e.newVariant(x)
+		if v == nil {
+			e.r.Hit("finding-stream:NewVariant-refused")
+			return
+		}
+		e.roundTrip("findings", tv, reflect.ValueOf(v), classify(v))
+	}
+	// witnesses
+	run([][]int32{{}, {}})
+	run([][]int32{})
+	run([][]byte{{1}, {2}})
+	run([][][]int32{{{1}, {2}}, {{3, 4}, {5, 6}}})
+	// NewVariant refuses arrays of ByteStrings of different lengths (taken for an unbalanced matrix): compared with the model only
+	run([][]byte{{1}, {2, 3}})
+	n := e.o.N(40, 2000)
+	for i := 0; i < n; i++ {
+		id := 1 + e.rnd.Intn(25)
+		switch e.rnd.Intn(4) {
+		case 0: // zero-length dimensions, empty multi-dimensional arrays
+			sh := e.g.Shape(true)
+			if e.rnd.Chance(30) {
+				sh = codecx.VariantShape{Kind: "array", Dims: []int{0, 1 + e.rnd.Intn(2)}}
+			}
+			if id == int(ua.TypeIDByteString) {
+				id = int(ua.TypeIDString)
+			}
+			run(e.g.VariantOf(id, sh, 2))
+		case 1: // arrays of ByteString
+			k := 1 + e.rnd.Intn(3)
+			bs := make([][]byte, k)
+			for j := range bs {
+				bs[j] = e.rnd.Bytes(2)
+			}
+			run(bs)
+		case 2: // ragged 3-D arrays whose first rows are balanced
+			a, b := 1+e.rnd.Intn(2), 2+e.rnd.Intn(2)
+			x := make([][][]int32, 2)
+			for r := range x {
+				x[r] = make([][]int32, b)
+				for c := range x[r] {
+					x[r][c] = make([]int32, a+r)
+				}
+			}
+			run(x)
+		default: // extension objects whose value has no encoded bytes
+			var reg codecx.Registered
+			for {
+				reg = e.g.Reg[e.rnd.Intn(len(e.g.Reg))]
+				if codecx.CanEncodeEmpty(reg.Type) {
+					break
+				}
+			}
+			eo := ua.NewExtensionObject(reflect.New(reg.Type.Elem()).Interface())
+			e.roundTrip("findings", reflect.TypeOf(eo), reflect.ValueOf(eo), classify(eo))
+		}
+	}
+}
+
 func (e *env) registered() {
 	per := e.o.N(3, 60)
 	for _, reg := range e.g.Reg {
@@ -212,9 +356,9 @@ func (e *env) builtins() {
 				continue
 			}
 			x := e.g.VariantOf(id, sh, 1)
-			v, err := ua.NewVariant(x)
-			if err != nil {
-				e.r.InfraError = "NewVariant: " + err.Error()
+			v := e.newVariant(x)
+			if v == nil {
+				e.r.InfraError = "NewVariant refused a generated value"
 				return
 			}
 			e.r.Hit(fmt.Sprintf("variant-id:%d", id))
@@ -238,6 +382,7 @@ func main() {
 	e := &env{o: o, r: r, d: d, rnd: rnd}
 	e.g = &codecx.Gen{R: rnd, Reg: codecx.RegisteredTypes(), MaxDepth: 2, Hit: nil}
 	r.Rule = "case = (type, value): real ua.Encode / ua.Decode vs the Lean encode / decode on the same value and bytes; non-trivial = the encoding has more than one byte; distinct by (type, canonical value text)"
+	e.findings()
 	e.registered()
 	e.builtins()
 	r.Write(o.Out)
